@@ -68,7 +68,9 @@ Proof.
 Qed.
 
 (* ---- component display ---- *)
-Definition se_of (e : env) : spec_env := {| se_comp_name := comp_name e |}.
+Definition se_of (e : env) : spec_env :=
+  {| se_comp_name := comp_name e;
+     se_error_details := fun ws a => match error_details e ws a with Some l => l | None => [] end |}.
 
 Lemma display_comp_spec e comp c : comp < 65536 ->
   js (display_comp e comp [c]) = component (se_of e) c comp.
